@@ -126,3 +126,29 @@ spec("R3s-notify-before-clear", "R3", (SCHED, "            sim.current_step = No
 spec("R3s-inline-args", "R3", (SCHED, "            input_data = get_input_data(world, sim)\n            max_advance = get_max_advance(world, sim, until)\n            await step(world, sim, input_data, max_advance)", "            await step(world, sim, get_input_data(world, sim), get_max_advance(world, sim, until))"))
 spec("R3s-guard-flip", "R3", (SCHED, "            if sim.current_step != sim.progress.time:", "            if not (sim.progress.time == sim.current_step):"))
 spec("R12s-flip", "R3", (SCHED, "t >= world.max_loop_iterations for t in sim.current_step.tiers[1:]", "world.max_loop_iterations <= sub for sub in sim.current_step.tiers[1:]"))
+
+# ----------------------------------------------------------------------------- R4
+sens("R4-no-dedup", "R4", "R4/dedup", (SIMM, "        if tiered_time in self.next_steps:\n            return tiered_time\n", ""))
+sens("R4-earlier-after-push", "R4", "R4/wake", (SIMM, "        is_earlier = not self.next_steps or tiered_time < self.next_steps[0]\n        hq.heappush(self.next_steps, tiered_time)\n", "        hq.heappush(self.next_steps, tiered_time)\n        is_earlier = not self.next_steps or tiered_time < self.next_steps[0]\n"))
+sens("R4-earlier-inline-after", "R4", "R4/wake", (SIMM, "        is_earlier = not self.next_steps or tiered_time < self.next_steps[0]\n        hq.heappush(self.next_steps, tiered_time)\n        if is_earlier:", "        hq.heappush(self.next_steps, tiered_time)\n        if tiered_time < self.next_steps[0]:"))
+sens("R4-wake-only-empty", "R4", "R4/wake", (SIMM, "        is_earlier = not self.next_steps or tiered_time < self.next_steps[0]", "        is_earlier = not self.next_steps"))
+sens("R4-wake-gt", "R4", "R4/wake", (SIMM, "        is_earlier = not self.next_steps or tiered_time < self.next_steps[0]", "        is_earlier = not self.next_steps or tiered_time > self.next_steps[0]"))
+sens("R4-settle-le", "R4", "R4/settle", (SCHED, "        if sim.next_steps and sim.next_steps[0] == sim.progress.time:", "        if sim.next_steps and sim.next_steps[0] <= sim.progress.time:"))
+sens("R4-settle-until-le", "R4", "R4/settle", (SCHED, "    while sim.progress.time.time < world.until:", "    while sim.progress.time.time <= world.until:"))
+sens("R4-wait-no-event", "R4", "R4/wait", (SCHED, "                asyncio.create_task(sim.newer_step.wait()),\n", ""))
+sens("R4-wait-all", "R4", "R4/wait", (SCHED, '                    return_when="FIRST_COMPLETED",\n                    timeout=world.rt_factor,', '                    return_when="ALL_COMPLETED",'))
+sens("R4-wait-empty-target", "R4", "R4/wait", (SCHED, "await_time = sim.next_steps[0] if sim.next_steps else TieredTime(world.until) + sim.from_world_time", "await_time = sim.next_steps[0] if sim.next_steps else sim.progress.time"))
+sens("R4-clear-before-wait", "R4", "R4/wait", (SCHED, "            tasks = [\n                asyncio.create_task(sim.progress.has_reached(await_time)),", "            sim.newer_step.clear()\n            tasks = [\n                asyncio.create_task(sim.progress.has_reached(await_time)),"), (SCHED, "                    task.cancel()\n            sim.newer_step.clear()\n", "                    task.cancel()\n"))
+sens("R4-clear-then-sleep", "R4", "R4/wait", (SCHED, "            sim.newer_step.clear()\n            if world.rt_factor:", "            sim.newer_step.clear()\n            await asyncio.sleep(0)\n            if world.rt_factor:"))
+sens("R4-rt-no-advance", "R4", "R4/wait", (SCHED, "            if world.rt_factor:\n                advance_progress(sim, world)\n    return False", "    return False"))
+sens("R4-notify-no-delay", "R4", "R4/notify", (SCHED, "                dest_sim.schedule_step(sim.output_time + delay)", "                dest_sim.schedule_step(sim.output_time)"))
+sens("R4-notify-last-step", "R4", "R4/notify", (SCHED, "                dest_sim.schedule_step(sim.output_time + delay)", "                dest_sim.schedule_step(sim.last_step + delay)"))
+sens("R4-notify-always", "R4", "R4/notify", (SCHED, "        if attr in sim.data.get(eid, {}):\n            for dest_sim, delay in triggered:\n                dest_sim.schedule_step(sim.output_time + delay)", "        for dest_sim, delay in triggered:\n            dest_sim.schedule_step(sim.output_time + delay)"))
+sens("R4-notify-once-per-dest", "R4", "R4/notify", (SCHED, "    for (eid, attr), triggered in sim.triggers.items():\n        if attr in sim.data.get(eid, {}):\n            for dest_sim, delay in triggered:\n                dest_sim.schedule_step(sim.output_time + delay)", "    notified = []\n    for (eid, attr), triggered in sim.triggers.items():\n        if attr in sim.data.get(eid, {}):\n            for dest_sim, delay in triggered:\n                if dest_sim in notified:\n                    continue\n                notified.append(dest_sim)\n                dest_sim.schedule_step(sim.output_time + delay)"))
+sens("R4-outtime-ge", "R4", "R4/outtime", (SCHED, "        if output_time == sim.current_step.time:\n            output_tiered_time = sim.current_step", "        if output_time >= sim.current_step.time:\n            output_tiered_time = sim.current_step"))
+sens("R4-outtime-flat", "R4", "R4/outtime", (SCHED, "        if output_time == sim.current_step.time:\n            output_tiered_time = sim.current_step\n        else:\n            output_tiered_time = TieredTime(output_time, *([0] * (len(sim.current_step) - 1)))", "        output_tiered_time = TieredTime(output_time, *([0] * (len(sim.current_step) - 1)))"))
+sens("R4-init-no-lift", "R4", "R4/init", (SCEN, "        sim.next_steps = [TieredTime(time) + sim.from_world_time]", "        sim.next_steps = [TieredTime(time)]"))
+
+spec("R4s-le-earlier", "R4", (SIMM, "        is_earlier = not self.next_steps or tiered_time < self.next_steps[0]", "        is_earlier = len(self.next_steps) == 0 or tiered_time <= self.next_steps[0]"), note="<= is the same as < after dedup")
+spec("R4s-settle-flip", "R4", (SCHED, "        if sim.next_steps and sim.next_steps[0] == sim.progress.time:", "        if sim.next_steps and sim.progress.time == sim.next_steps[0]:"))
+spec("R4s-notify-index", "R4", (SCHED, "        if attr in sim.data.get(eid, {}):", "        if eid in sim.data and attr in sim.data[eid]:"))
